@@ -229,7 +229,7 @@ def r2_scoped_id(c, facts):
         if any(n.endswith('Locator::url') or n.endswith('::locator') for n in names):
             have['locator'] = True
             # url::Url::make_relative(base, url) is injective in `url` for a fixed base (base.join(rel) == url), so it keeps modules apart
-            extra = sorted({P.strip(n).split('::')[-1] for n in names} - {'locator', 'url', 'as_str', 'as_ref', 'deref', 'to_string', 'clone', 'borrow', 'as_bytes', 'make_relative', 'base'})
+            extra = sorted({P.strip(n).split('::')[-1] for n in names} - {'locator', 'url', 'as_str', 'as_ref', 'deref', 'to_string', 'clone', 'borrow', 'as_bytes', 'make_relative', 'base', 'as_deref', 'unwrap_or', 'unwrap_or_else', 'map_or', 'map_or_else', 'unwrap_or_default', 'map', 'as_mut'})
             if extra:
                 c.bad(R, 'digest-locator-partial:%s' % ','.join(extra), 'NodeRef::digest hashes only a part of the module locator (derived through %s): modules that agree on that part share implicit component names' % ', '.join(extra))
         if any(n.endswith('into_raw_parts') for n in names):
